@@ -10,7 +10,7 @@
 Arithmetic lemma (evidence): with L2-L3, head == number of messages (mod N) and head >= N iff at least N messages were
 logged since the clear; hence L4's slot is message number total - min(total, N) + n.
 """
-from .. import build, paths
+from .. import build, flow, paths
 from ..ir import AnalysisError
 from ..paths import fmt, ptr_parts, strip_casts
 
@@ -126,6 +126,46 @@ def boundary_values(n):
     return sorted(set([0, 1, 2, n - 2, n - 1, n, n + 1, 2 * n - 1, 2 * n, 2 * n + 1, 3 * n]))
 
 
+def bdd_subscript_bound(fn, conds, sub, info):
+    """True if conds imply sub <u N for all 32-bit arguments and head < 2^31; None if not decided."""
+    from ..domains.bdd import BDD, BV
+    from ..domains.bvexec import expr_bv, Top
+    head_off, line_off, N, esz = info
+    B = BDD()
+    bv = BV(B)
+    vars_ = {}
+
+    def var(key):
+        if key not in vars_:
+            k = len(vars_)
+            vars_[key] = [B.var(4 * i + k) for i in range(32)]
+        return vars_[key]
+
+    def atom(x):
+        if x[0] == "arg" and x[1] < len(fn.args) and paths.int_bits_of(fn.args[x[1]].ty) == 32 and x[1] < 3:
+            return var(("arg", x[1]))
+        if x[0] == "ld" and is_head(x[1], info):
+            return var("head")
+        return None
+    try:
+        pc = 1
+        for c, taken, inst in conds:
+            if inst is not None and getattr(inst, "op", None) == "switch":
+                return None
+            v = expr_bv(c, bv, atom)
+            bit = 0
+            for x in v:
+                bit = B.OR(bit, x)
+            pc = B.AND(pc, bit if taken else B.NOT(bit))
+        sv = expr_bv(sub, bv, atom)
+    except (Top, KeyError, IndexError, TypeError):
+        return None
+    if "head" in vars_:
+        pc = B.AND(pc, bv.ult(vars_["head"], bv.const(1 << 31, 32)))
+    bad = B.AND(pc, B.NOT(bv.ult(sv, bv.const(N, len(sv)))))
+    return True if bad == 0 else None
+
+
 class _Conds:
     def __init__(self, conds):
         self.conds = conds
@@ -155,6 +195,12 @@ def decide_subscript(chk, m, info, fn, conds, sub, inst, what, depth):
     if named and pr.prove_ge0(idx) and pr.prove_le(idx, Lin.const(n - 1)):
         chk.ob("L1.subscript-in-bounds", what, True, "subscript %s proved within [0, %d] from the path conditions" % (idx, n - 1),
                inst.loc, fn.name)
+        return
+    # bit-precise attempt: conditions and subscript as functions of the 32-bit arguments and of head (< 2^31)
+    bd = bdd_subscript_bound(fn, conds, sub, info)
+    if bd is True:
+        chk.ob("L1.subscript-in-bounds", what, True, "subscript %s < %d under the path conditions, for all 32-bit argument values "
+               "and every head < 2^31 (BDD)" % (fmt(sub)[:50], n), inst.loc, fn.name)
         return
     if fn.internal and named and any(a.startswith("arg") for a in idx.atoms()):
         # a file-local helper: its arguments are whatever its callers pass
@@ -217,7 +263,7 @@ def check_subscripts(chk, m, info):
         for p, la, inst, what in sites:
             n_acc += 1
             decide_subscript(chk, m, info, fn, p.conds, la[0], inst, what, 0)
-    chk.expect("L1", "subscripted accesses to log.line", n_acc, 5)
+    chk.expect("L1", "subscripted accesses to log.line", n_acc, 2)
 
 
 def norm_head(e, info):
@@ -235,7 +281,6 @@ def check_vmlog(chk, m, info):
     chk.note_fn(fn)
     head_off, line_off, n, esz = info
     ps = paths.enumerate_paths(fn, m)
-    folds = 0
     for p in ps:
         pid = "vmlog path " + "->".join(b.lstrip("%") for b in p.blocks)
         ev = p.events
@@ -256,61 +301,167 @@ def check_vmlog(chk, m, info):
                "stores fmt + %d arguments (element offsets %s, expected %s) into slot (old head mod %d)%s%s, before the counter is incremented"
                % (len(want) - 1, offs, want, n, "" if idx_ok else " [slot index is not the old head mod N]",
                   "" if fmt_ok else " [fmt not stored at offset 0]"), ev[hs[0]].inst.loc, fn.name)
-        inc = norm_head(strip_casts(ev[hs[0]].val), info)
-        ok_inc = inc == ("b", "add", inc[2] if len(inc) > 2 else 0, old, ("c", 32, 1))
-        chk.ob("L2.increment", pid, ok_inc, "head := old head + 1 (got %s)" % fmt(ev[hs[0]].val)[:60], ev[hs[0]].inst.loc, fn.name)
-        if len(hs) == 1:
-            # must be below threshold: find the cond on new head
+    # --- the counter update as a function head' = f(head), bit-precise over all head < 2^31 -------------------------
+    from ..domains.bdd import BDD, BV
+    from ..domains.bvexec import expr_bv, Top
+    B = BDD()
+    bv = BV(B)
+    hv = bv.inputs(0, 32)
+
+    def atom(x):
+        if x[0] == "ld" and is_head(x[1], info):
+            return hv
+        return None
+    inv = bv.ult(hv, bv.const(1 << 31, 32))
+    newh = None
+    covered = 0
+    try:
+        for p in ps:
+            if paths.is_assert_fail_path(p):
+                continue
+            hs = [e for e in p.events if e.kind == "store" and is_head(e.ptr, info)]
+            if not hs:
+                continue
+            pc = inv
+            for c, taken, inst in p.conds:
+                if not paths.contains(c, lambda x: x[0] == "ld" and is_head(x[1], info)):
+                    continue
+                if inst is not None and inst.op == "switch":
+                    raise Top("switch on the counter")
+                v = expr_bv(c, bv, atom)
+                bit = 0
+                for x in v:
+                    bit = B.OR(bit, x)
+                pc = B.AND(pc, bit if taken else B.NOT(bit))
+            val = bv.trunc(expr_bv(hs[-1].val, bv, atom), 32)
+            newh = val if newh is None else bv.mux(pc, val, newh)
+            covered = B.OR(covered, pc)
+    except Top as t:
+        chk.unknown("L3.fold", "vmlog", "counter update outside the bit-vector fragment: %s" % t, fn.loc)
+        return
+    if newh is None:
+        return
+    loc = fn.loc
+
+    def show(f):
+        a = B.sat_one(f) or {}
+        return "head == %d (0x%x)" % ((sum((1 << i) for i in range(32) if a.get(i)),) * 2)
+    gap = B.AND(inv, B.NOT(covered))
+    h1 = bv.add(hv, bv.const(1, 32))
+    small = bv.ult(h1, bv.const(n, 32))
+    bad = B.OR(gap, B.AND(B.AND(inv, small), B.NOT(bv.eq(newh, h1))))
+    chk.ob("L2.increment", "vmlog", bad == 0,
+           "below %d messages the counter is exactly old head + 1 (every head)" % n if bad == 0 else
+           "the counter is not old head + 1 for %s" % show(bad), loc, fn.name)
+    mask = bv.const(n - 1, 32) if n & (n - 1) == 0 else None
+    if mask is None:
+        chk.unknown("L3.fold-residue", "vmlog", "line count %d is not a power of two: residues not modelled" % n, loc)
+    else:
+        bad = B.AND(inv, B.NOT(bv.eq(bv.AND(newh, mask), bv.AND(h1, mask))))
+        chk.ob("L3.fold-residue", "vmlog", bad == 0,
+               "new head == old head + 1 (mod %d) for every head < 2^31: the slot order survives whatever folding is done" % n if bad == 0 else
+               "the slot residue (head mod %d) is not preserved for %s: new head mod %d differs from (old head + 1) mod %d, so the "
+               "oldest-first order is rotated" % (n, show(bad), n, n), loc, fn.name)
+    bad = B.AND(B.AND(inv, B.NOT(small)), bv.ult(newh, bv.const(n, 32)))
+    chk.ob("L3.fold-stays-wrapped", "vmlog", bad == 0,
+           "once %d messages have been logged the counter never drops below %d again" % (n, n) if bad == 0 else
+           "the counter drops below %d for %s: the log forgets that it has wrapped" % (n, show(bad)), loc, fn.name)
+    bad = B.AND(inv, B.NOT(bv.ult(newh, bv.const(1 << 31, 32))))
+    chk.ob("L3.fold-threshold", "vmlog", bad == 0,
+           "head < 2^31 is preserved (so a negative int index, converted to unsigned, is >= head and is rejected)" if bad == 0 else
+           "the counter can reach 2^31: %s" % show(bad), loc, fn.name)
+
+
+def check_get_line_bdd(chk, m, info):
+    """L4 decided bit-precisely: get_line as a function of the 32-bit patterns of n and head (head below 2^31, which L3
+    maintains).  For every path: NULL is returned only where NOT valid, a line only where valid, with
+    valid := n <u head and n <u N (so a negative int index, whose pattern is >= 2^31, is never valid); and the slot
+    returned is (n + (head >= N ? head : 0)) mod N.  Returns False if the function is outside the bit-vector fragment."""
+    from ..domains.bdd import BDD, BV
+    from ..domains.bvexec import expr_bv, Top
+    fn = m.fn("get_line")
+    head_off, line_off, N, esz = info
+    if N & (N - 1):
+        return False
+    B = BDD()
+    bv = BV(B)
+    nv = [B.var(2 * i) for i in range(32)]
+    hv = [B.var(2 * i + 1) for i in range(32)]
+    abits = paths.int_bits_of(fn.args[0].ty) if fn.args else None
+    if abits != 32:
+        return False
+
+    def atom(x):
+        if x == ("arg", 0):
+            return nv
+        if x[0] == "ld" and is_head(x[1], info):
+            return hv
+        return None
+    dom = bv.ult(hv, bv.const(1 << 31, 32))
+    valid = B.AND(bv.ult(nv, hv), bv.ult(nv, bv.const(N, 32)))
+    wrapped = B.NOT(bv.ult(hv, bv.const(N, 32)))
+    want_slot = bv.AND(bv.add(nv, bv.mux(wrapped, hv, bv.const(0, 32))), bv.const(N - 1, 32))
+
+    def show(f):
+        a = B.sat_one(f) or {}
+        n_ = sum((1 << i) for i in range(32) if a.get(2 * i))
+        h_ = sum((1 << i) for i in range(32) if a.get(2 * i + 1))
+        return "n=%d%s head=%d" % (n_, " (int %d)" % (n_ - (1 << 32)) if n_ >> 31 else "", h_)
+    ps = [p for p in paths.enumerate_paths(fn, m) if not paths.is_assert_fail_path(p)]
+    results = []
+    try:
+        for p in ps:
+            pc = dom
+            for c, taken, inst in p.conds:
+                if inst is not None and inst.op == "switch":
+                    raise Top("switch")
+                v = expr_bv(c, bv, atom)
+                bit = 0
+                for x in v:
+                    bit = B.OR(bit, x)
+                pc = B.AND(pc, bit if taken else B.NOT(bit))
+            slot = None
+            if p.ret != ("null",):
+                la = line_access(p.ret, info)
+                if la is None:
+                    raise Top("returned pointer %s is not an element of log.line" % fmt(p.ret)[:50])
+                slot = expr_bv(la[0], bv, atom)
+            results.append((p, pc, slot))
+    except Top:
+        return False
+    for p, pc, slot in results:
+        pid = "get_line path " + "->".join(b.lstrip("%") for b in p.blocks)
+        if pc == 0:
             continue
-        if len(hs) > 2:
-            chk.unknown("L3.fold", pid, "head stored %d times" % len(hs), ev[hs[2]].inst.loc)
+        if slot is None:
+            bad = B.AND(pc, valid)
+            chk.ob("L4.reader-predicate", pid, bad == 0,
+                   "NULL is returned only when n >= head or n >= %d (all 32-bit n, negative int included; head < 2^31)" % N if bad == 0 else
+                   "NULL is returned although n < head and n < %d, e.g. %s: a stored message is hidden" % (N, show(bad)),
+                   p.ret_inst.loc, fn.name)
             continue
-        folds += 1
-        new = ev[hs[0]].val
-        T = None
-        for c, taken, inst in p.conds:
-            cc = strip_casts(c)
-            if cc[0] == "icmp" and strip_casts(cc[2]) == strip_casts(new) and cc[3][0] == "c":
-                if (cc[1] == "uge" and taken):
-                    T = cc[3][2]
-                elif (cc[1] == "ugt" and taken):
-                    T = cc[3][2] + 1
-                elif cc[1] == "eq" and taken:
-                    T = cc[3][2]
-        fv = strip_casts(ev[hs[1]].val)
-        if T is None:
-            chk.unknown("L3.fold", pid, "fold is not guarded by `new head >= T`", ev[hs[1]].inst.loc)
-            continue
-        # the counter moves in steps of one and is folded at once, so the fold happens exactly when new head == T:
-        # evaluate the folded value at old head == T-1 (finite-set evaluation, one point)
-        from ..paths import eval_concrete, NoValue, subexprs
-        env = {}
-        for x in subexprs(ev[hs[1]].val):
-            if x[0] == "ld" and is_head(x[1], info):
-                env[x] = (T - 1) & 0xffffffff
-        try:
-            folded = eval_concrete(ev[hs[1]].val, env) & 0xffffffff
-        except NoValue:
-            chk.unknown("L3.fold", pid, "fold value %s not evaluable" % fmt(fv)[:60], ev[hs[1]].inst.loc)
-            continue
-        res_ok = folded % n == T % n
-        keep = n <= folded < T
-        desc = "at head == %d the counter is folded to %d" % (T, folded)
-        chk.ob("L3.fold-residue", pid, res_ok,
-               "%s: the slot residue (head mod %d) must be preserved, otherwise the oldest-first order is rotated after the wrap"
-               % (desc, n), ev[hs[1]].inst.loc, fn.name)
-        chk.ob("L3.fold-stays-wrapped", pid, keep, "%s: head stays >= %d (still 'wrapped') and below the threshold" % (desc, n),
-               ev[hs[1]].inst.loc, fn.name)
-        chk.ob("L3.fold-threshold", pid, T <= (1 << 31),
-               "threshold %d <= 2^31, so a negative int index converted to unsigned is >= head and is rejected" % T,
-               ev[hs[1]].inst.loc, fn.name)
-    chk.expect("L3", "fold paths in vmlog", folds, 1)
+        bad = B.AND(pc, B.NOT(valid))
+        chk.ob("L4.reader-predicate", pid, bad == 0,
+               "a line is returned only when n < head and n < %d (all 32-bit n, negative int included; head < 2^31)" % N if bad == 0 else
+               "a line is returned for %s: an index outside the stored messages (a negative one included) must yield NULL" % show(bad),
+               p.ret_inst.loc, fn.name)
+        w = max(len(slot), 32)
+        s2 = bv.zext(slot, w) if len(slot) < w else slot
+        ws = bv.zext(want_slot, w)
+        bad = B.AND(B.AND(pc, valid), B.NOT(bv.eq(s2, ws)))
+        chk.ob("L4.reader-index", pid, bad == 0,
+               "slot == (n + (head >= %d ? head : 0)) mod %d for every valid n and every head" % (N, N) if bad == 0 else
+               "the slot returned is not (n + (head >= %d ? head : 0)) mod %d, e.g. %s" % (N, N, show(bad)), p.ret_inst.loc, fn.name)
+    chk.expect("L4", "paths of get_line", len(results), 2)
+    return True
 
 
 def check_get_line(chk, m, info):
     from ..domains.lin import Lin, expr_to_lin
     fn = m.fn("get_line")
     chk.note_fn(fn)
+    if check_get_line_bdd(chk, m, info):
+        return
     head_off, line_off, n, esz = info
     N = n
     ps = paths.enumerate_paths(fn, m)
@@ -427,6 +578,34 @@ def check_nice_clear(chk, m, info):
     for p in paths.enumerate_paths(fc, m):
         st = [e for e in p.events if e.kind == "store" and is_head(e.ptr, info)]
         chk.ob("L6.clear", "mlog_clear", len(st) == 1 and st[0].val == ("c", 32, 0), "mlog_clear stores 0 to head", fc.loc, fc.name)
+        # "since the last mlog_clear": every bookkeeping field of the log object that any function consults must be back at
+        # its initial value (0, the object is static) after mlog_clear - a flag or cached count that survives the clear makes
+        # the readers see messages from before it
+        consulted = {}
+        for g in m.defined_functions():
+            for i in g.real_insts():
+                if i.op != "load":
+                    continue
+                try:
+                    pp = flow.resolve_ptr(i.ops[0], m)
+                except AnalysisError:
+                    continue
+                if pp.root.k == "global" and pp.root.name == "log" and not pp.var and not (line_off <= pp.off < line_off + n * esz):
+                    consulted.setdefault(pp.off, (g.name, i.loc))
+        cleared = set()
+        whole = False
+        for e in p.events:
+            if e.kind == "store" and e.ptr is not None and ptr_parts(e.ptr)[0] == ("g", "log") and not ptr_parts(e.ptr)[2] \
+                    and e.val[0] == "c" and e.val[2] == 0:
+                cleared.add(ptr_parts(e.ptr)[1])
+            if e.kind == "memset" and ptr_parts(e.ptr)[0] == ("g", "log") and e.val == ("c", 8, 0):
+                whole = True
+        missing = sorted(o for o in consulted if o not in cleared) if not whole else []
+        chk.ob("L6.clear-resets-all", "mlog_clear", not missing,
+               "every bookkeeping field of log that is read anywhere (%s) is zeroed by mlog_clear" %
+               ", ".join("+%d" % o for o in sorted(consulted)) if not missing else
+               "log+%d is read by %s (%s) but not reset by mlog_clear: state from before the clear leaks into the readers"
+               % (missing[0], consulted[missing[0]][0], consulted[missing[0]][1]), fc.loc, fc.name)
 
 
 def check_readers(chk, m, info):
